@@ -27,8 +27,9 @@ import LitexModel.Timeout.Wb
   and override the decoder's.  Arbiter lock and decoder lock count the same two expressions on the same
   (shared) bus, hence always hold the same value: the model keeps one counter.
 
-  Not modelled: payload signals other than the address, `b.resp`, `r.resp`, `r.data`, `r.last` (pure
-  pass-through); ids.  Core Lean only.
+  Not modelled here: payload signals other than the address, `b.resp`, `r.resp`, `r.data`, `r.last`; the ids, burst
+  length and `w.last` pass-through is `payOut` in `Timeout/Soc.lean` (the control below never reads them).
+  Core Lean only.
 -/
 namespace Litex.Timeout.Axi
 open Litex
